@@ -9,6 +9,8 @@ pub mod sym;
 pub mod gen;
 pub mod cat;
 pub mod model;
+#[cfg(feature = "c16")]
+pub mod tok;
 
 #[cfg(feature = "c00")]
 pub mod c00;
